@@ -14,6 +14,9 @@ CFGS = {
     'san2': dict(cxx='g++', cflags=BASE + ' -mavx2 ' + SAN, ldflags='-fopenmp -fsanitize=address,undefined', env=ASAN_ENV),
     'san5': dict(cxx='g++', cflags=BASE + ' -mavx2 -mavx512f -D__AVX512__ ' + SAN, ldflags='-fopenmp -fsanitize=address,undefined', env=ASAN_ENV, needs_avx512=True),
     # OpenMP regions compiled by g++ but executed by our runtime stand-in (harness owns the schedule)
+    # other optimisation levels (inline asm constraints and intrinsics sequences are re-scheduled by the compiler): thorough tier only
+    'dbg2': dict(cxx='g++', cflags=BASE + ' -O0 -mavx2', ldflags='-fopenmp'),
+    'clang2': dict(cxx='clang++', cflags=BASE + ' -O2 -mavx2', ldflags='-fopenmp'),
     'shim2': dict(cxx='g++', cflags=BASE + ' -O2 -mavx2', ldflags='-pthread', link_src=['engine/ompshim.cpp']),
     'shim5': dict(cxx='g++', cflags=BASE + ' -O2 -mavx2 -mavx512f -D__AVX512__', ldflags='-pthread', link_src=['engine/ompshim.cpp'], needs_avx512=True),
     'tsan2': dict(cxx='g++', cflags=BASE + ' -O1 -g -mavx2 -fsanitize=thread', ldflags='-pthread -fsanitize=thread', link_src=['engine/ompshim.cpp'],
@@ -40,7 +43,9 @@ HOOK_COMMITS = []     # no guarded hooks in /repo
 PROPS['C01'] = dict(
     title='Scalar field ops are exact mod p on every 64-bit representation',
     level='exploration',
-    jobs=[J('h_c01', 'fast2', 16_000_000, 1_600_000_000)],
+    jobs=[J('h_c01', 'fast2', 16_000_000, 1_600_000_000),
+          J('h_c01', 'dbg2', 1, 100_000_000, tiers=['thorough'], class_prefix='O0-build:'),
+          J('h_c01', 'clang2', 1, 200_000_000, tiers=['thorough'], class_prefix='clang-build:')],
     rule='rapidcheck-generated (a,b[,alias]) per op from boundary classes (canonical edges, non-canonical band [p,2^64), 32-bit hi/lo patterns, 2^k+-d) '
          'and SOLVED second operands (sum/difference next to 2^64, p, 2^64+p; product residue next to 0, 2^32, p; product high word on 32-bit edge patterns). '
          'Oracle: (a op b) mod p in unsigned __int128, cross-checked with GMP on every case. A case is non-trivial when an operand is non-canonical, '
@@ -67,6 +72,8 @@ _LANE_CLASSES = ['lane:a>=p', 'lane:add-wrap', 'lane:b>=p', 'lane:sub-borrow', '
 PROPS['C02'] = dict(
     title='AVX2 lane kernels equal the scalar field op in every lane, every input',
     jobs=[J('h_lanes', 'fast2', 6_000_000, 800_000_000, only='c02'),
+          J('h_lanes', 'dbg2', 1, 40_000_000, only='c02', tiers=['thorough'], class_prefix='O0-build:'),
+          J('h_lanes', 'clang2', 1, 100_000_000, only='c02', tiers=['thorough'], class_prefix='clang-build:'),
           J('h_lanes', 'fast5', 1_000_000, 200_000_000, only='c02', tiers=['thorough'], class_prefix='avx512-build:')],
     rule=_LANE_RULE, expected_classes=_LANE_CLASSES,
     technique='rapidcheck property-based testing: per-lane boundary/solved-operand generators vs u128 reference oracle (differential against the scalar semantics)',
